@@ -16,5 +16,6 @@ Definition e2e_stream_judge_c12 := E2E.e2e_stream_judge_c12.
 Definition e2e_pn_judge := E2E.e2e_pn_judge.
 Definition e2e_cid_judge := E2E.e2e_cid_judge.
 Definition e2e_cc_judge := E2E.e2e_cc_judge.
-Extraction "../ocaml/gen/E2E/model.ml" e2e_pn_judge e2e_cid_judge e2e_cc_judge e2e_run e2e_stream_judge e2e_amp_judge e2e_inject_judge
+Definition e2e_violate_judge := E2E.e2e_violate_judge.
+Extraction "../ocaml/gen/E2E/model.ml" e2e_pn_judge e2e_cid_judge e2e_cc_judge e2e_violate_judge e2e_run e2e_stream_judge e2e_amp_judge e2e_inject_judge
   e2e_stream_judge_c01 e2e_stream_judge_c02 e2e_stream_judge_c03 e2e_stream_judge_c12.
